@@ -487,6 +487,8 @@ def run_late(case, res):
   a = gin.external_configurable(enc, name='enc', module='c06late.alpha.models')
   gin.bind_parameter('c06late.alpha.models.enc.depth', 3)
   gin.bind_parameter('s/enc.width', [1, 2])
+  # references spelled with names that are unambiguous now and become ambiguous with the later registration
+  gin.parse_config("c06.g.t = @enc\na/c06.f.x = [@s/models.enc(), {'k': @enc()}]\n")
   a()
   try:
     if first == 'config_str':
